@@ -346,6 +346,29 @@ fn spawn_async_ao_list_in_task'''),
         ('digit-equal-radix-accepted', PA, 'if digit_val >= radix {', 'if digit_val > radix {'),
         ('base-65-accepted', PA, 'if !(2..=64).contains(&radix) {', 'if !(2..=65).contains(&radix) {'),
     ],
+    'U15': [
+        ('close-removes-entry', 'brush-core/src/openfiles.rs', 'self.files.insert(fd, None).and_then(|f| f)', 'self.files.remove(&fd).and_then(|f| f)'),
+        ('add-starts-at-stderr', 'brush-core/src/openfiles.rs', 'const FIRST_NON_STDIO_FD: ShellFd = 3;', 'const FIRST_NON_STDIO_FD: ShellFd = 2;'),
+        ('add-off-by-one-limit', 'brush-core/src/openfiles.rs', 'if fd >= Self::MAX_FD {', 'if fd > Self::MAX_FD {'),
+        ('entry-closed-reads-as-unspecified', 'brush-core/src/openfiles.rs', '                None => OpenFileEntry::NotPresent,', '                None => OpenFileEntry::NotSpecified,'),
+        ('closed-fd-falls-back-to-shell', IN, '            openfiles::OpenFileEntry::NotPresent => None,', '            openfiles::OpenFileEntry::NotPresent => shell.persistent_open_files().try_fd(fd).cloned(),'),
+        ('try-stderr-returns-stdout', IN, 'self.try_fd(shell, openfiles::OpenFiles::STDERR_FD)', 'self.try_fd(shell, openfiles::OpenFiles::STDOUT_FD)'),
+        ('default-fd-readwrite-stdout', IN, 'ast::IoFileRedirectKind::ReadAndWrite => 0,', 'ast::IoFileRedirectKind::ReadAndWrite => 1,'),
+        ('noclobber-truncates', IN, '''                                    options.create_new(true);
+                                }
+                                options.write(true);''', '''                                    options.create_new(true);
+                                }
+                                options.write(true);
+                                options.truncate(true);'''),
+        ('noclobber-inverted-test', IN, 'if !expanded_file_path.is_file() {', 'if expanded_file_path.is_file() {'),
+        ('append-truncates', IN, '''                            options.create(true);
+                            options.append(true);''', '''                            options.create(true);
+                            options.truncate(true);
+                            options.append(true);'''),
+        ('procsubst-fd-zero', IN, '''        candidate_fd_num -= 1;
+        if candidate_fd_num == 0 {''', '''        candidate_fd_num -= 1;
+        if candidate_fd_num < 0 {'''),
+    ],
     'U20': [
         ('gap-ge', HL, 'if range.start > self.current_byte_index {', 'if range.start >= self.current_byte_index {'),
         ('push-empty-range', HL, '        if !range.is_empty() {', '        if true {'),
